@@ -117,6 +117,75 @@ func concScenario(pubs int, script []string, withHandler bool, bound int) *vsche
 	}
 }
 
+// twoChangers: two goroutines change the subscriber list concurrently (each Subscribe must be
+// registered, each Unsubscribe must stick), then, after both are done, a Publish shows who is
+// registered.
+func twoChangers(a, b []string, bound int) *vsched.Scenario {
+	fam := "concurrent-changers"
+	return &vsched.Scenario{
+		Name:  fmt.Sprintf("%s/%v|%v", fam, a, b),
+		Bound: bound,
+		Body: func() {
+			p := fpgo.PublisherNewGenerics[int]()
+			handles := map[int]*fpgo.Subscription[int]{}
+			mk := func(s int) fpgo.Subscription[int] {
+				return fpgo.Subscription[int]{OnNext: func(v int) { vsched.Event("deliver", s, v) }}
+			}
+			handles[0] = p.Subscribe(mk(0))
+			handles[1] = p.Subscribe(mk(1))
+			var wg sync.WaitGroup
+			var mu sync.Mutex
+			run := func(name string, script []string) {
+				wg.Add(1)
+				vsched.GoNamed(name, func() {
+					for _, op := range script {
+						var id int
+						fmt.Sscanf(op[len(op)-1:], "%d", &id)
+						if op[:3] == "sub" {
+							h := p.Subscribe(mk(id))
+							mu.Lock()
+							handles[id] = h
+							mu.Unlock()
+						} else {
+							mu.Lock()
+							h := handles[id]
+							mu.Unlock()
+							p.Unsubscribe(h)
+						}
+					}
+					wg.Done()
+				})
+			}
+			run("changerA", a)
+			run("changerB", b)
+			wg.Wait()
+			p.Publish(7)
+		},
+		Check: func(r *vsched.Result) []vsched.Failure {
+			fs := e1.Basic("C10", fam, r, nil)
+			if len(r.Panics) > 0 {
+				return fs
+			}
+			live := map[int]bool{0: true, 1: true}
+			for _, op := range append(append([]string{}, a...), b...) {
+				var id int
+				fmt.Sscanf(op[len(op)-1:], "%d", &id)
+				live[id] = op[:3] == "sub"
+			}
+			for id, want := range live {
+				n := e1.Count(r, "deliver", id, 7)
+				if want && n != 1 {
+					fs = append(fs, e1.Fail("C10|"+fam+"|skipped", "subscription %d was subscribed (its Subscribe returned) before Publish began but was invoked %d times", id, n))
+				}
+				if !want && n != 0 {
+					fs = append(fs, e1.Fail("C10|"+fam+"|invoked-after-unsubscribe", "subscription %d received the value although its Unsubscribe completed before the Publish began", id))
+				}
+			}
+			return fs
+		},
+	}
+}
+
 func scenarios(tier string) []*vsched.Scenario {
 	b := 2
 	if tier == "thorough" {
@@ -129,7 +198,9 @@ func scenarios(tier string) []*vsched.Scenario {
 	}
 	out = append(out, concScenario(2, scripts[0], false, 2), concScenario(2, scripts[2], false, 2),
 		concScenario(1, scripts[0], true, b), concScenario(1, scripts[1], true, b), concScenario(2, nil, true, 2))
+	out = append(out, twoChangers([]string{"sub2"}, []string{"sub3"}, b), twoChangers([]string{"sub2"}, []string{"unsub1"}, b), twoChangers([]string{"unsub0"}, []string{"unsub1"}, b))
 	if tier == "thorough" {
+		out = append(out, twoChangers([]string{"sub2", "sub4"}, []string{"sub3", "unsub0"}, 2))
 		out = append(out, concScenario(2, scripts[3], false, 2), concScenario(2, scripts[4], true, 2))
 	}
 	return out
